@@ -64,6 +64,7 @@ func (c06) Gen(r *rand.Rand, tier string, idx int) *core.Plan {
 	w["nb"] = int64(core.Pick(r, 0, 0, 0, 1, 2, 3)) // which certificate (leaf / intermediate / root) becomes valid only 10 minutes after signing
 	w["expiryB"] = int64(r.IntN(3))
 	w["bToken"] = int64(r.IntN(2))
+	w["rival"] = int64(r.IntN(2))
 	w["expiryAction"] = int64(core.Pick(r, 0, 0, 1)) // log (both validations always reported) / enforce (a failed expiry ends the verification)
 	n := 1 + r.IntN(6)
 	for i := 0; i < n; i++ {
@@ -356,7 +357,21 @@ func (l c06) Exec(env *core.Env) *core.Result {
 				res.Probe("second_signature_verified")
 			}
 			config := fmt.Sprintf("%s sig=%d expiryAction=%s entry=%d", config, inst.which, expiryAction, w["entry"])
-			outcome, verr := verifyEntry(ctx, v, entryOf(w), desc, sig, format)
+			var outcome *notation.VerificationOutcome
+			var verr error
+			if w["rival"] == 1 && inst.which == 1 && cur.counter == 2 {
+				// the second signature carries the first one's countersignature; another goroutine of the host is
+				// verifying the first (genuine) one on the same verifier and is already inside, at the trust store,
+				// when this verification begins
+				g := &rivalGate{}
+				store.Gate = g.hold
+				concurrently(sim, g, func() { verifyEntry(ctx, v, entryOf(w), desc, sigA.bytes, format) },
+					func() { outcome, verr = verifyEntry(ctx, v, entryOf(w), desc, sig, format) })
+				store.Gate = nil
+				res.Probe("verified_while_a_neighbour_verification_of_the_same_countersignature_was_in_flight")
+			} else {
+				outcome, verr = verifyEntry(ctx, v, entryOf(w), desc, sig, format)
+			}
 			var exp, ts *notation.ValidationResult
 			if outcome != nil {
 				for _, r := range outcome.VerificationResults {
